@@ -350,4 +350,170 @@ theorem polyTurn_impl (ctr : Pt) (c s : Rat) (hu : c * c + s * s = 1) (vs : List
   rw [polyContains_eq_spec _ _ (by rw [List.length_map]; exact h3), polyContains_eq_spec _ _ h3]
   exact polyTurn_spec ctr c s hu vs p hoff
 
+/-! ### The polygon centre turns with the polygon -/
+
+theorem rotAbout_injective (ctr : Pt) (c s : Rat) (hu : c * c + s * s = 1) :
+    Function.Injective (rotAbout ctr c s) := by
+  intro a b h
+  have h1 : (rotAbout ctr c s a).1 = (rotAbout ctr c s b).1 := by rw [h]
+  have h2 : (rotAbout ctr c s a).2 = (rotAbout ctr c s b).2 := by rw [h]
+  rw [rotAbout_fst, rotAbout_fst] at h1
+  rw [rotAbout_snd, rotAbout_snd] at h2
+  have k1 : c * (a.1 - b.1) - s * (a.2 - b.2) = 0 := by linarith
+  have k2 : s * (a.1 - b.1) + c * (a.2 - b.2) = 0 := by linarith
+  have e1 : (c * c + s * s) * (a.1 - b.1) = 0 := by
+    have : (c * c + s * s) * (a.1 - b.1) =
+        c * (c * (a.1 - b.1) - s * (a.2 - b.2)) + s * (s * (a.1 - b.1) + c * (a.2 - b.2)) := by ring
+    rw [this, k1, k2]; ring
+  have e2 : (c * c + s * s) * (a.2 - b.2) = 0 := by
+    have : (c * c + s * s) * (a.2 - b.2) =
+        c * (s * (a.1 - b.1) + c * (a.2 - b.2)) - s * (c * (a.1 - b.1) - s * (a.2 - b.2)) := by ring
+    rw [this, k1, k2]; ring
+  rw [hu, one_mul] at e1 e2
+  ext <;> linarith
+
+theorem polyClosed_map (f : Pt → Pt) (hf : Function.Injective f) (vs : List Pt) :
+    polyClosed (vs.map f) = polyClosed vs := by
+  rw [Bool.eq_iff_iff]
+  simp only [polyClosed, Bool.and_eq_true, beq_iff_eq, decide_eq_true_eq, List.length_map,
+    List.head?_map, List.getLast?_map]
+  constructor
+  · rintro ⟨h1, h2⟩
+    exact ⟨h1, Option.map_injective hf h2⟩
+  · rintro ⟨h1, h2⟩
+    exact ⟨h1, by rw [h2]⟩
+
+theorem polyCore_map (f : Pt → Pt) (hf : Function.Injective f) (vs : List Pt) :
+    polyCore (vs.map f) = (polyCore vs).map f := by
+  simp only [polyCore, polyClosed_map f hf]
+  split
+  · exact (List.map_dropLast ..).symm
+  · rfl
+
+theorem sumList_affine (k a : Rat) (xs : List Rat) :
+    sumList (xs.map fun x => k * x + a) = k * sumList xs + (xs.length : Rat) * a := by
+  induction xs with
+  | nil => simp [sumList]
+  | cons x rest ih =>
+    simp only [List.map_cons, sumList_cons, ih, List.length_cons, Nat.cast_add, Nat.cast_one]
+    ring
+
+theorem sumList_add (xs : List Pt) (f g : Pt → Rat) :
+    sumList (xs.map fun v => f v + g v) = sumList (xs.map f) + sumList (xs.map g) := by
+  induction xs with
+  | nil => simp [sumList]
+  | cons x rest ih => simp only [List.map_cons, sumList_cons, ih]; ring
+
+theorem sumList_smul (xs : List Pt) (k : Rat) (f : Pt → Rat) :
+    sumList (xs.map fun v => k * f v) = k * sumList (xs.map f) := by
+  induction xs with
+  | nil => simp [sumList]
+  | cons x rest ih => simp only [List.map_cons, sumList_cons, ih]; ring
+
+theorem sumList_const (xs : List Pt) (a : Rat) :
+    sumList (xs.map fun _ => a) = (xs.length : Rat) * a := by
+  induction xs with
+  | nil => simp [sumList]
+  | cons x rest ih => simp only [List.map_cons, sumList_cons, ih, List.length_cons, Nat.cast_add, Nat.cast_one]; ring
+
+theorem polyMean_rot (ctr : Pt) (c s : Rat) (hu : c * c + s * s = 1) (vs : List Pt) (h : vs ≠ []) :
+    polyMean (vs.map (rotAbout ctr c s)) = rotAbout ctr c s (polyMean vs) := by
+  have hn : polyCore vs ≠ [] := polyCore_ne_nil vs h
+  have hlen : ((polyCore vs).length : Rat) ≠ 0 := by
+    have : (polyCore vs).length ≠ 0 := fun h0 => hn (List.length_eq_zero_iff.mp h0)
+    exact_mod_cast this
+  simp only [polyMean, polyCore_map _ (rotAbout_injective ctr c s hu), List.map_map, List.length_map]
+  have e1 : ((fun x : Pt => x.1) ∘ rotAbout ctr c s) =
+      fun v : Pt => (c * v.1 + (-(c * ctr.1) + s * ctr.2 + ctr.1)) + (-s) * v.2 := by
+    funext v; simp only [Function.comp, rotAbout_fst]; ring
+  have e2 : ((fun x : Pt => x.2) ∘ rotAbout ctr c s) =
+      fun v : Pt => (s * v.1 + (-(s * ctr.1) - c * ctr.2 + ctr.2)) + c * v.2 := by
+    funext v; simp only [Function.comp, rotAbout_snd]; ring
+  rw [e1, e2]
+  rw [sumList_add (polyCore vs) (fun v => c * v.1 + (-(c * ctr.1) + s * ctr.2 + ctr.1)) (fun v => (-s) * v.2),
+    sumList_add (polyCore vs) (fun v => s * v.1 + (-(s * ctr.1) - c * ctr.2 + ctr.2)) (fun v => c * v.2),
+    sumList_add (polyCore vs) (fun v => c * v.1) (fun _ => (-(c * ctr.1) + s * ctr.2 + ctr.1)),
+    sumList_add (polyCore vs) (fun v => s * v.1) (fun _ => (-(s * ctr.1) - c * ctr.2 + ctr.2)),
+    sumList_smul, sumList_smul, sumList_smul, sumList_smul, sumList_const, sumList_const]
+  ext
+  · simp only [rotAbout_fst]; field_simp; ring
+  · simp only [rotAbout_snd]; field_simp; ring
+
+theorem offsets_rot (ctr : Pt) (c s : Rat) (m : Pt) (vs : List Pt) :
+    offsets (rotAbout ctr c s m) (vs.map (rotAbout ctr c s)) = (offsets m vs).map (rot c s) := by
+  simp only [offsets, List.map_map]
+  apply List.map_congr_left
+  intro v _
+  simp only [Function.comp, rot, rotAbout_fst, rotAbout_snd]
+  ext <;> simp <;> ring
+
+theorem shoelacePath_rot (c s : Rat) (hu : c * c + s * s = 1) (o : List Pt) :
+    shoelacePath (o.map (rot c s)) = shoelacePath o := by
+  induction o with
+  | nil => rfl
+  | cons a rest ih =>
+    cases rest with
+    | nil => rfl
+    | cons b r =>
+      simp only [List.map_cons, shoelacePath] at ih ⊢
+      rw [ih]
+      have : (rot c s a).1 * (rot c s b).2 - (rot c s a).2 * (rot c s b).1 =
+          (c * c + s * s) * (a.1 * b.2 - a.2 * b.1) := by simp only [rot]; ring
+      rw [this, hu, one_mul]
+
+theorem polyAreaSigned_rot (ctr : Pt) (c s : Rat) (hu : c * c + s * s = 1) (vs : List Pt) (h : vs ≠ []) :
+    polyAreaSigned (vs.map (rotAbout ctr c s)) = polyAreaSigned vs := by
+  simp only [polyAreaSigned, polyMean_rot ctr c s hu vs h, offsets_rot, shoelacePath_rot c s hu,
+    polyClosed_map _ (rotAbout_injective ctr c s hu), List.getLast?_map, List.head?_map]
+  congr 2
+  split
+  · rfl
+  · cases h1 : (offsets (polyMean vs) vs).getLast? <;> cases h2 : (offsets (polyMean vs) vs).head? <;>
+      simp only [Option.map_none, Option.map_some]
+    rename_i l f
+    have : (rot c s l).1 * (rot c s f).2 - (rot c s l).2 * (rot c s f).1 =
+        (c * c + s * s) * (l.1 * f.2 - l.2 * f.1) := by simp only [rot]; ring
+    rw [this, hu, one_mul]
+
+theorem centroidSum_rot (c s : Rat) (hu : c * c + s * s = 1) (l : Pt) (o : List Pt) :
+    centroidSum (rot c s l) (o.map (rot c s)) = rot c s (centroidSum l o) := by
+  induction o generalizing l with
+  | nil => simp [centroidSum, rot]
+  | cons b rest ih =>
+    simp only [List.map_cons, centroidSum, ih]
+    have hd : (rot c s l).1 * (rot c s b).2 - (rot c s l).2 * (rot c s b).1 =
+        (l.1 * b.2 - l.2 * b.1) := by
+      have : (rot c s l).1 * (rot c s b).2 - (rot c s l).2 * (rot c s b).1 =
+        (c * c + s * s) * (l.1 * b.2 - l.2 * b.1) := by simp only [rot]; ring
+      rw [this, hu, one_mul]
+    rw [hd]
+    simp only [rot]
+    ext <;> simp <;> ring
+
+theorem polyCentroid_rot (ctr : Pt) (c s : Rat) (hu : c * c + s * s = 1) (vs : List Pt) (h : vs ≠ []) :
+    polyCentroid (vs.map (rotAbout ctr c s)) = rotAbout ctr c s (polyCentroid vs) := by
+  simp only [polyCentroid, List.length_map, polyMean_rot ctr c s hu vs h,
+    polyCore_map _ (rotAbout_injective ctr c s hu), offsets_rot, polyAreaSigned_rot ctr c s hu vs h,
+    List.getLast?_map]
+  split
+  · rfl
+  · cases hl : (offsets (polyMean vs) (polyCore vs)).getLast? with
+    | none => rfl
+    | some l =>
+      simp only [Option.map_some, centroidSum_rot c s hu]
+      ext
+      · simp only [rot, rotAbout_fst]; ring
+      · simp only [rot, rotAbout_snd]; ring
+
+/-- **`center()` turns with the polygon**; in particular a rotation about the centre keeps it. -/
+theorem polyCenter_rot (ctr : Pt) (c s : Rat) (hu : c * c + s * s = 1) (vs : List Pt) (h : vs ≠ []) :
+    polyCenter (vs.map (rotAbout ctr c s)) = rotAbout ctr c s (polyCenter vs) := by
+  simp only [polyCenter, polyAreaSigned_rot ctr c s hu vs h, polyMean_rot ctr c s hu vs h,
+    polyCentroid_rot ctr c s hu vs h]
+  split <;> rfl
+
+theorem rotAbout_self (ctr : Pt) (c s : Rat) : rotAbout ctr c s ctr = ctr := by
+  simp only [rotAbout, rot]
+  ext <;> simp
+
 end GlueVerif.Lemmas.Geometry
